@@ -1,8 +1,7 @@
 (* C19 - reported statistics are true; connection slots do not leak.  Statements only; proofs
-   in IRCP.InvDefs / IRCP.InvStep / IRCP.Reach / IRCP.HighWater.  The ISON / USERHOST texts are
-   checked by the correspondence oracle (stats_oracle), level L2. *)
+   in IRCP.InvDefs / IRCP.InvStep / IRCP.Reach / IRCP.HighWater.  IRCP.PresenceP. *)
 From IRC Require Import Str Wild Glob Parse Reply State Handlers Step.
-From IRCP Require Import InvDefs InvStep Reach HighWater.
+From IRCP Require Import InvDefs InvStep Reach HighWater PresenceP.
 From stdpp Require Import gmap.
 Open Scope N_scope.
 
@@ -58,6 +57,21 @@ Proof. exact (step_high_water cfg verify). Qed.
 Theorem C19_high_water_dominates : forall w, reachable cfg verify w -> N.of_nat (size (users (sh w))) <= max_users (sh w).
 Proof. exact (reachable_hw cfg verify). Qed.
 
+(* ISON: all 303 replies together name exactly the queried nicknames that are registered (in the
+   order and with the repetitions asked); USERHOST: one entry per queried registered nickname,
+   '*' iff (local) operator, '-' iff away *)
+Theorem C19_ison_exact : forall i s c nicks,
+  process_ison cfg i s c nicks =
+    hr s c (mine cfg i (List.map (fun ch => rpl_ison (client_name c) (List.filter (registered_b s) ch)) (chunks 20 nicks))) /\
+  concat (List.map (List.filter (registered_b s)) (chunks 20 nicks)) = List.filter (registered_b s) nicks.
+Proof. exact (ison_exact cfg). Qed.
+
+Theorem C19_userhost_exact : forall i s c nicks,
+  process_userhost cfg i s c nicks =
+    hr s c (mine cfg i (List.map (fun ch => rpl_userhost (client_name c) (omap (userhost_entry s) ch)) (chunks 20 nicks))) /\
+  concat (List.map (omap (userhost_entry s)) (chunks 20 nicks)) = omap (userhost_entry s) nicks.
+Proof. exact (userhost_exact cfg). Qed.
+
 End C19.
 
 Print Assumptions C19_counters.
@@ -66,3 +80,5 @@ Print Assumptions C19_limit.
 Print Assumptions C19_slot_freed.
 Print Assumptions C19_high_water_step.
 Print Assumptions C19_high_water_dominates.
+Print Assumptions C19_ison_exact.
+Print Assumptions C19_userhost_exact.
